@@ -26,7 +26,7 @@ META = {
         "np.linalg.solve: n <= 3 exact cofactor solution under det != 0, n = 4 contract stub A X = B",
     ],
     "stubs": ["np.linalg.solve (see assumptions)"],
-    "outside": ["fractions inside the tolerance bands (0, eps] and [1-eps, 1)", "more than 4 phases"],
+    "outside": ["fractions inside the tolerance bands (0, eps] and [1-eps, 1)", "more than 3 phases (4 phases: undecided by z3 within an hour)"],
 }
 
 
